@@ -260,6 +260,9 @@ func aGenOps(t *rapid.T, e *aEnv, p aProfile, fresh *int) []aOp {
 	}
 	if r < p.timers+(98-p.timers)*58/100 {
 		// LOCK
+		if p.longTimes && pct(t, "longExpiry") < 3 {
+			return aGenLongExpiryScenario(t, e, db, key, fresh)
+		}
 		if p.bursts && pct(t, "burst") < 3 {
 			if x := pct(t, "burstKind"); x < 20 {
 				return aGenReentrantBurst(t, e, db, key, fresh)
@@ -542,13 +545,18 @@ func aGenBurst(t *rapid.T, e *aEnv, db, key int, fresh *int) []aOp {
 		n = rapid.SampledFrom([]int{200, 230, 260}).Draw(t, "burstHugeN")
 	}
 	mixedPrio := pct(t, "burstPrio") < 50
-	latePrio, floodCancel := false, false
+	latePrio, floodCancel, floodDrain := false, false, false
 	if !holders && pct(t, "burstFlood") < 30 {
 		// FIFO waiters beyond the in-line part of the wait container, then a waiter with a priority: the container
 		// is rebuilt as a priority queue
 		n = rapid.SampledFrom([]int{150, 270, 300}).Draw(t, "burstFloodN")
-		mixedPrio, latePrio = false, pct(t, "burstFloodKind") < 50
-		floodCancel = !latePrio
+		fk := pct(t, "burstFloodKind")
+		mixedPrio, latePrio = false, fk < 35
+		floodCancel = fk >= 35 && fk < 65
+		floodDrain = fk >= 65
+		if floodDrain {
+			n = rapid.SampledFrom([]int{262, 270, 300, 330}).Draw(t, "burstFloodDrainN")
+		}
 	}
 	var ops []aOp
 	for i := 0; i < n; i++ {
@@ -558,12 +566,36 @@ func aGenBurst(t *rapid.T, e *aEnv, db, key int, fresh *int) []aOp {
 			op.Cnt, op.T, op.E = 0xffff, 0, rapid.SampledFrom([]int{3, 20, 50}).Draw(t, "burstE")
 		} else {
 			op.Cnt, op.T, op.E = rapid.SampledFrom([]int{0, 0, 1, 2}).Draw(t, "burstCount"), rapid.SampledFrom([]int{2, 5, 12, 40}).Draw(t, "burstT"), 5
+			if floodDrain {
+				op.Cnt, op.T, op.E = 0, 600, 600
+			}
 			if (mixedPrio && i%3 == 0) || (latePrio && i >= n-3) {
 				op.TF |= tfPRIO
 				op.Rc = rapid.IntRange(0, 3).Draw(t, "burstPrioV")
 			}
 		}
 		ops = append(ops, op)
+	}
+	if floodDrain {
+		// the in-line part of the FIFO wait container (256 slots) is served completely while requests are still queued in
+		// its overflow ring, then a new request arrives: it must not be served before those. The key's oldest holder is
+		// released again and again (unlock-first), each release grants the head of the queue.
+		unlockFirst := func() aOp { *fresh++; return aOp{K: "unlock", C: 0, Db: db, Key: key, Id: 100 + *fresh, F: ufFIRST} }
+		served := rapid.SampledFrom([]int{255, 256, 257, 258, 260}).Draw(t, "floodServed")
+		for i := 0; i < served; i++ {
+			ops = append(ops, unlockFirst())
+		}
+		for i := rapid.IntRange(1, 3).Draw(t, "floodLate"); i > 0; i-- {
+			*fresh++
+			ops = append(ops, aOp{K: "lock", C: i % len(e.clients), Db: db, Key: key, Id: 100 + *fresh, Cnt: 0, T: 600, E: 600})
+			if pct(t, "floodLateServe") < 50 {
+				ops = append(ops, unlockFirst())
+			}
+		}
+		for i := rapid.IntRange(3, n-served+6).Draw(t, "floodRest"); i > 0; i-- {
+			ops = append(ops, unlockFirst())
+		}
+		return ops
 	}
 	if floodCancel {
 		// cancel-wait unlocks for waiters of the in-line part and of the overflow ring of the FIFO wait container
@@ -633,6 +665,61 @@ func aGenLongWaitScenario(t *rapid.T, e *aEnv, db, key int, fresh *int) []aOp {
 		}
 	}
 	ops = append(ops, step(), step())
+	return ops
+}
+
+// aGenLongExpiryScenario: several holds that share one entry of the long expiry table (same shard, same deadline second:
+// filed there directly with the zero-aof-time flag and an expiry > 5 s, or after > 8 re-checks of the wheel, ~45 s), of
+// which some leave before the deadline (unlock, or an update / re-lock that moves the deadline) - the others must still
+// expire on time and free their capacity.
+func aGenLongExpiryScenario(t *rapid.T, e *aEnv, db, key int, fresh *int) []aOp {
+	id := func() int { *fresh++; return 100 + *fresh }
+	n := rapid.IntRange(2, 6).Draw(t, "lxHolds")
+	direct := pct(t, "lxDirect") < 70
+	exp := rapid.SampledFrom([]int{6, 7, 10, 20}).Draw(t, "lxExpiry")
+	ef := 0x0100
+	if !direct {
+		exp, ef = rapid.SampledFrom([]int{50, 55, 60, 90}).Draw(t, "lxExpiryLong"), rapid.SampledFrom([]int{0, 0x0100}).Draw(t, "lxFlag")
+	}
+	spread := pct(t, "lxSpread") < 40 // some of the holds on a second key (same shard or not: drawn by the key hash)
+	var ops []aOp
+	type held struct{ key, id int }
+	var hs []held
+	for i := 0; i < n; i++ {
+		k := key
+		if spread && i%2 == 1 {
+			k = key + 1
+		}
+		h := held{k, id()}
+		hs = append(hs, h)
+		ops = append(ops, aOp{K: "lock", C: i % 2, Db: db, Key: k, Id: h.id, Cnt: 0xffff, E: exp, EF: ef})
+	}
+	if !direct {
+		ops = append(ops, aOp{K: "tick", N: rapid.SampledFrom([]int{38, 40, 46}).Draw(t, "lxAge")})
+	} else if pct(t, "lxPause") < 50 {
+		ops = append(ops, aOp{K: "tick", N: rapid.IntRange(1, 3).Draw(t, "lxPauseN")})
+	}
+	// holes: mostly among the holds filed first
+	for i := 0; i < n-1; i++ {
+		x := pct(t, "lxLeave")
+		if i > 0 {
+			x += 35
+		}
+		switch {
+		case x < 45:
+			ops = append(ops, aOp{K: "unlock", C: i % 2, Db: db, Key: hs[i].key, Id: hs[i].id})
+		case x < 60:
+			ops = append(ops, aOp{K: "lock", C: i % 2, Db: db, Key: hs[i].key, Id: hs[i].id, Cnt: 0xffff, F: fUPDATE, E: exp + rapid.IntRange(3, 30).Draw(t, "lxUpd"), EF: ef})
+		}
+	}
+	// a request that needs the capacity the expiring holds occupy, then time beyond the deadline
+	ops = append(ops, aOp{K: "lock", C: 2, Db: db, Key: key, Id: id(), Cnt: 0, T: 120, E: 30})
+	left := exp + 3
+	for left > 0 {
+		st := rapid.SampledFrom([]int{1, 2, 3, 5, 9}).Draw(t, "lxStep")
+		ops = append(ops, aOp{K: "tick", N: st, J: pct(t, "lxJump") < 15})
+		left -= st
+	}
 	return ops
 }
 
@@ -755,7 +842,9 @@ func aClasses(prop string, in aInfo) (bool, []string) {
 	add(in.queueGrants > 0, "grant from the wait queue")
 	add(in.timeouts > 0, "TIMEOUT reply")
 	add(in.timeoutsLongTbl > 0, "TIMEOUT of a wait > 9 s (long-wait table)")
+	add(in.floodLate > 0, "request queued behind the overflow part of a wait queue whose first 256 entries had been served")
 	add(in.expiries > 0, "EXPRIED notice")
+	add(in.expiriesLongTbl > 0, "EXPRIED of a hold in the long expiry table after another hold with the same deadline second had left it")
 	add(in.updatesApplied > 0, "update applied")
 	add(in.updates > in.updatesApplied, "update ignored")
 	add(in.cancels > 0, "cancel-wait")
